@@ -367,6 +367,7 @@ pub fn render(log: &RunLog, w: &World, max_events: usize) -> Vec<String> {
             Ev::ConnBegin { conn } => format!("conn {} begin", conn),
             Ev::ConnEnd { conn } => format!("conn {} end", conn),
             Ev::Watchdog => "WATCHDOG".to_string(),
+            Ev::ClockSpin => "CLOCK-SPIN (future busy-waited on the clock)".to_string(),
         };
         out.push(format!("{:5} {}", i, line));
     }
